@@ -83,6 +83,20 @@ theorem compare_numeric_software (self other : Software) (ds₁ ds₂ : List Str
     simp only [compareVersionO, e₂]
     exact compare_numeric v o pa p ds₁ ds₂ _ h₁ h₂ hp hlen
 
+/-- **compare_numeric, stated over numbers.**  For all non-empty lists of natural numbers written
+    the usual way (`[10, 0] ↦ "10.0"`): the verdict is `numCmp` of the numbers, then the patch order. -/
+theorem compare_numeric_nat (vendor os patch : Option Str) (product : Str) (ns₁ ns₂ : List Nat) (pa : Str)
+    (h₁ : ns₁ ≠ []) (h₂ : ns₂ ≠ []) (hp : PatchShape pa) (hlen : 2 ≤ ns₂.length ∨ 2 ≤ (verText ns₂).length ∨ pa = []) :
+    compareVersion ⟨vendor, product, verText ns₁, patch, os⟩ (verText ns₂ ++ pa)
+      = expected product ns₁ ns₂ (patch.getD []) pa := by
+  have hl : 2 ≤ (render (ns₂.map natToStr)).length ∨ pa = [] := by
+    rcases hlen with h | h | h
+    · exact Or.inl (verText_len_two ns₂ h)
+    · exact Or.inl h
+    · exact Or.inr h
+  have := compare_numeric vendor os patch product _ _ pa (wfDs_canon ns₁ h₁) (wfDs_canon ns₂ h₂) hp hl
+  simpa only [vals_canon, verText] using this
+
 def patchShapeB (pa : Str) : Bool :=
   (match pa with | [] => true | c :: _ => !isVerChar c) && !pa.contains '\n' && pyStrip pa == pa
 
@@ -477,6 +491,93 @@ theorem slotStep_numeric (pos : Nat) (prev ver : Str) (h : orderSafe prev ver = 
   simp only [slotStep, h1, h2]
   have : pos % 2 = 0 ∨ pos % 2 = 1 := by omega
   rcases this with hp | hp <;> simp [hp] <;> split <;> simp_all
+
+def numsOf (v : Str) : List Nat := (dotNum? v).getD []
+
+theorem verLt_iff (a b : Str) (h : orderSafe a b = true) : verLt a b = true ↔ numCmp (numsOf a) (numsOf b) < 0 := by
+  simp only [orderSafe, Bool.and_eq_true, Option.isSome_iff_exists] at h
+  obtain ⟨⟨⟨⟨x, hx⟩, ⟨y, hy⟩⟩, _⟩, _⟩ := h
+  simp [verLt, numsOf, hx, hy]
+
+/-- Folding the slot rule over any list of versions that are pairwise order-safe leaves the
+    numerically newest of them in a "from" slot (even position) and the numerically oldest in a
+    "till" slot (odd position): on such a set the string min/max of `Timeframe._update` is the
+    numeric one. -/
+theorem timeframe_fold_numeric (pos : Nat) (v0 : Str) (vs : List Str)
+    (hs : ∀ a ∈ v0 :: vs, ∀ b ∈ v0 :: vs, orderSafe a b = true) :
+    ∃ r, vs.foldl (slotStep pos) (some v0) = some r ∧ r ∈ v0 :: vs ∧
+      ∀ v ∈ v0 :: vs, (if pos % 2 = 0 then verLt r v else verLt v r) = false := by
+  induction vs generalizing v0 with
+  | nil =>
+    refine ⟨v0, rfl, by simp, ?_⟩
+    intro v hv
+    simp only [List.mem_singleton] at hv; subst hv
+    have h0 := hs v (by simp) v (by simp)
+    have : ¬ (verLt v v = true) := by rw [verLt_iff v v h0, numCmp_self]; omega
+    split <;> simpa using this
+  | cons x xs ih =>
+    have hv0x := hs v0 (by simp) x (by simp)
+    have hxv0 := hs x (by simp) v0 (by simp)
+    rw [List.foldl_cons, slotStep_numeric pos v0 x hv0x]
+    generalize hm : (if pos % 2 = 0 then (if verLt v0 x then x else v0) else (if verLt x v0 then x else v0)) = m
+    have hmem : m = v0 ∨ m = x := by
+      rw [← hm]; split <;> split <;> simp
+    have hsub : ∀ a ∈ m :: xs, a ∈ v0 :: x :: xs := by
+      intro a ha
+      simp only [List.mem_cons] at ha ⊢
+      rcases ha with ha | ha
+      · rcases hmem with h | h <;> simp [ha, h]
+      · simp [ha]
+    obtain ⟨r, hr, hrm, hall⟩ := ih m (fun a ha b hb => hs a (hsub a ha) b (hsub b hb))
+    have hr' : r ∈ v0 :: x :: xs := hsub r hrm
+    refine ⟨r, hr, hr', ?_⟩
+    intro v hv
+    simp only [List.mem_cons] at hv
+    have hbm := hall m (by simp)
+    -- the comparisons involved, as integers
+    have a1 := numCmp_antisymm (numsOf r) (numsOf v0)
+    have a2 := numCmp_antisymm (numsOf r) (numsOf x)
+    have a3 := numCmp_antisymm (numsOf v0) (numsOf x)
+    have t1 := numCmp_trans (numsOf x) (numsOf v0) (numsOf r)
+    have t2 := numCmp_trans (numsOf v0) (numsOf x) (numsOf r)
+    have t3 := numCmp_trans (numsOf r) (numsOf v0) (numsOf x)
+    have t4 := numCmp_trans (numsOf r) (numsOf x) (numsOf v0)
+    have orv0 := hs r hr' v0 (by simp)
+    have orx := hs r hr' x (by simp)
+    have ov0r := hs v0 (by simp) r hr'
+    have oxr := hs x (by simp) r hr'
+    have e1 := verLt_iff r v0 orv0
+    have e2 := verLt_iff r x orx
+    have e3 := verLt_iff v0 r ov0r
+    have e4 := verLt_iff x r oxr
+    have e5 := verLt_iff v0 x hv0x
+    have e6 := verLt_iff x v0 hxv0
+    rcases hv with hv | hv | hv
+    · subst hv
+      by_cases hp : pos % 2 = 0
+      · simp only [hp, if_true] at hbm hm ⊢
+        cases h1 : verLt v0 x
+        · simp only [h1, Bool.false_eq_true, if_false] at hm; subst hm; exact hbm
+        · simp only [h1, if_true] at hm; subst hm
+          cases h2 : verLt r v <;> simp_all <;> omega
+      · simp only [hp, if_false] at hbm hm ⊢
+        cases h1 : verLt x v
+        · simp only [h1, Bool.false_eq_true, if_false] at hm; subst hm; exact hbm
+        · simp only [h1, if_true] at hm; subst hm
+          cases h2 : verLt v r <;> simp_all <;> omega
+    · subst hv
+      by_cases hp : pos % 2 = 0
+      · simp only [hp, if_true] at hbm hm ⊢
+        cases h1 : verLt v0 v
+        · simp only [h1, Bool.false_eq_true, if_false] at hm; subst hm
+          cases h2 : verLt r v <;> simp_all <;> omega
+        · simp only [h1, if_true] at hm; subst hm; exact hbm
+      · simp only [hp, if_false] at hbm hm ⊢
+        cases h1 : verLt v v0
+        · simp only [h1, Bool.false_eq_true, if_false] at hm; subst hm
+          cases h2 : verLt v r <;> simp_all <;> omega
+        · simp only [h1, if_true] at hm; subst hm; exact hbm
+    · exact hall v (by simp [hv])
 
 /-- every pair of versions of one product occurring anywhere in the two rating databases -/
 def dbPairs : List (Str × Str) :=
